@@ -181,6 +181,58 @@ def r2(run: Run, src, cg):
     mstmt = mcall
     while mstmt is not None and not isinstance(mstmt, ast.stmt):
         mstmt = parents.get(mstmt)
+    # every call that can re-enter this function (call graph) is a descent, whatever it is called
+    for s_ in cg.sites.get(fi.key, []):
+        if s_.node in descents or s_ is markers[0][0]:
+            continue
+        for t_ in s_.targets:
+            if t_.cls is not None and t_.cls.name == 'Context':
+                continue
+            try:
+                back = fi.key in cg.reachable([t_])
+            except Exception:
+                back = False
+            if back and s_.node not in descents:
+                descents.append(s_.node)
+    # the marker is keyed by the identity of the cell: sheet, column and row (the uid), not by a part of it
+    callee0 = markers[0][1]
+    cparam = [p_ for p_ in callee0.params if p_ not in ('self', 'cls')]
+    keyed_ok = None
+    if cparam:
+        cp_ = cparam[0]
+        tests_ = [c for n in ast.walk(callee0.node) if isinstance(n, ast.If) for c in ast.walk(n.test)
+                  if isinstance(c, ast.Compare) and isinstance(c.ops[0], (ast.In, ast.NotIn))]
+        if tests_:
+            key_e = tests_[0].left
+
+            def identity_of(e, depth=0):
+                """True when the expression carries title, column and row of the cell parameter"""
+                txt = ast.unparse(e)
+                if f'{cp_}.uid' in txt:
+                    return True
+                if all(f'{cp_}.{a}' in txt for a in ('title', 'column', 'row')):
+                    return True
+                if isinstance(e, ast.Name) and depth < 3:
+                    vals = [st.value for st in ast.walk(callee0.node) if isinstance(st, ast.Assign) and
+                            any(isinstance(t, ast.Name) and t.id == e.id for t in st.targets)]
+                    return bool(vals) and all(identity_of(v, depth + 1) for v in vals)
+                if isinstance(e, ast.Call) and isinstance(e.func, ast.Attribute) and depth < 3 and callee0.cls is not None:
+                    m = callee0.cls.methods.get(e.func.attr)
+                    if m is not None and e.args and ast.unparse(e.args[0]) == cp_:
+                        mp = [p_ for p_ in m.params if p_ not in ('self', 'cls')]
+                        rets_ = [r.value for r in ast.walk(m.node) if isinstance(r, ast.Return) and r.value is not None]
+                        if mp and rets_:
+                            t2 = [ast.unparse(r) for r in rets_]
+                            return all(f'{mp[0]}.uid' in x or all(f'{mp[0]}.{a}' in x for a in ('title', 'column', 'row')) for x in t2)
+                return False
+            keyed_ok = identity_of(key_e)
+    if keyed_ok is None:
+        raise AnalysisError('C03.R2', f'{callee0.qualname}: the key of the in-progress test could not be determined')
+    run.check(keyed_ok, 'C03.R2', f'{callee0.qualname}/key', 'marker-key-not-cell-identity',
+              f'{callee0.qualname} records cells in progress under a key that does not carry sheet, column and row of the cell (the '
+              f'uid): two different cells with the same key are mistaken for one -- an acyclic reference between equal addresses on '
+              f'two sheets is rejected as circular', fact='keyed by the cell uid (sheet, column, row)',
+              loc=loc_of(callee0.module.path, callee0.node))
     for d in descents:
         before = executed_before(fn, d, parents)
         run.check(mstmt in before, 'C03.R2', f'_set_cell_to_context/{ast.unparse(d.func)}', 'descent-before-marker',
